@@ -157,6 +157,30 @@ FAMILIES["life"] = {
                     "the real-socket half of 'nothing reaches the network after Shutdown' uses loopback sockets outside the virtual-time bubble"],
 }
 
+FAMILIES["cluster"] = {
+    "name": "cluster", "props": ["C03", "C04", "C05"], "models": "Cursor.v (probe schedule); detection bound of Cursor_proofs.v",
+    "harness": COMMON + ["zz_vf_cluster_test.go"], "test": "TestVfCluster",
+    "n": {"quick": 24, "thorough": 1200},
+    "no_shrink": True,
+    "codes": [(520, 529, ["C05"]), (530, 539, ["C03"]), (540, 549, ["C04"])],
+    "code_names": {1: "undecodable case", 2: "recorded suspicionTimeout is not what util.go computes",
+                   60: "probe cursor: the next probe differs from the Cursor model (stable membership)",
+                   61: "probe cursor: the node list was reordered without a wrap", 62: "probe cursor: the model selects nobody but the implementation probed",
+                   520: "C05: views did not converge within the settling time although the fresh-alive graph was connected when faults stopped",
+                   521: "C05: views did not converge; the live nodes were connected through member lists but not through fresh Alive records (D-C05)",
+                   530: "C03: a survivor that listed the crashed member delivered no leave event within the bound",
+                   531: "C03: a survivor still lists the crashed member at the end",
+                   532: "C03: a node probed itself", 533: "C03: a node probed a peer it held Dead/Left",
+                   534: "C03: a peer that was live throughout two passes of the probe cursor was not probed in the second",
+                   535: "C03: a pass over a stable member list did not probe every live peer exactly once",
+                   540: "C04: a suspect/dead accusation was put on the wire in a healthy cluster",
+                   541: "C04: a leave event fired for a member that had not left",
+                   542: "C04: a health score left zero", 543: "C04: a node held a responsive member Suspect/Dead (a leaver may only be held Left)"},
+    "assumptions": ["goroutine scheduling inside a virtual instant, ticker behaviour and the Go timers are the runtime's: observed in virtual time, not proved",
+                    "the simulated network (latency bound, loss, duplication, partitions, stream cuts) is the harness's; the real UDP/TCP transport is not exercised here",
+                    "convergence for every schedule is not a theorem: peer selection is random in the code; the settling time is observed"],
+}
+
 # a property may be served by several families (run in order); the first is its primary one
 PROPS = {}
 for f, d in sorted(FAMILIES.items(), key=lambda kv: 0 if kv[0] in ("susp", "queue", "wire", "stream") else 1):
